@@ -6,7 +6,7 @@ command -v java >/dev/null
 [ -f /opt/veriftools/tla/tla2tools.jar ]
 mkdir -p evidence/replay
 echo '[[49]]' > /tmp/verif-setup-texts.$$.json
-for m in spec/SGR.tla spec/CtrlSeq.tla spec/AnsiOps.tla; do
+for m in spec/TraceHistory.tla spec/AnsiSystem.tla spec/CPSystem.tla; do
   ( cd spec && VERIF_TEXTS=/tmp/verif-setup-texts.$$.json java -cp /opt/veriftools/tla/tla2tools.jar:/opt/veriftools/tla/CommunityModules-deps.jar tla2sany.SANY "$(basename $m)" >/tmp/verif-setup.$$.log 2>&1 ) || { cat /tmp/verif-setup.$$.log; rm -f /tmp/verif-setup*.$$.*; exit 1; }
 done
 rm -f /tmp/verif-setup-texts.$$.json /tmp/verif-setup.$$.log
